@@ -233,6 +233,15 @@ def giant(seed):
     return [t, Table(3, n, cols, f'giant3x{n}')]
 
 
+def giant20k(seed):
+    """20 000 members on one axis (derivation operators only; a spread of singletons, not all)."""
+    n = 20000
+    rows = [[1 + (i % 3)] + ([3] if i % 5 == 0 else []) for i in range(n)]
+    t = Table(n, 3, rows, 'giant20000x3')
+    cols = [[i + 1 for i in range(n) if j in set(rows[i])] for j in range(1, 4)]
+    return [t, Table(3, n, cols, 'giant3x20000')]
+
+
 def giant_gen(seed):
     m = 3100
     rows = [[1 + (i * 20 + k) % m for k in range(20)] + [m - (i % 150)] for i in range(150)]
@@ -297,6 +306,11 @@ def widesquare(seed, big=False):
 
 def boundary_positions(n):
     pos = {1, 2, n - 1, n}
+    if n > 6000:                          # 20k axis: powers of two and their neighbours, every 500th, the last ones
+        for k in range(1, 16):
+            pos |= {2 ** k - 1, 2 ** k, 2 ** k + 1, 2 ** k + 2}
+        pos |= set(range(500, n, 500)) | set(range(n - 40, n + 1)) | {16384 + 615, 17000, 19999}
+        return sorted(p for p in pos if 1 <= p <= n)
     if n > 1500:
         return list(range(1, n + 1))      # giant axes: every singleton (thresholds there cannot be guessed)
     for bnd in (30, 31, 32, 33, 34, 35, 59, 60, 61, 62, 63, 64, 65, 66, 126, 127, 128, 129, 130, 192, 193, 256, 257):
